@@ -27,6 +27,9 @@ type File struct {
 	Path string      `json:"path"`
 	Docs []wire.Tree `json:"docs,omitempty"`
 	Raw  *string     `json:"raw,omitempty"`
+	// EscDollar: the documents are serialised with every "$" spelled as an
+	// escape sequence of the format (same documents, no "$" in the bytes)
+	EscDollar bool `json:"escaped_dollars,omitempty"`
 }
 
 // Link is a symlink.
@@ -54,14 +57,18 @@ func (f *File) Bytes() (string, bool) {
 	for i, d := range f.Docs {
 		docs[i] = d.V
 	}
-	return gen.StreamText(Ext(f.Path), docs)
+	s, ok := gen.StreamText(Ext(f.Path), docs)
+	if ok && f.EscDollar {
+		s = gen.EscapeDollars(Ext(f.Path), s)
+	}
+	return s, ok
 }
 
 // Clone deep-copies a world.
 func (w *World) Clone() *World {
 	n := &World{Dirs: append([]string{}, w.Dirs...), Links: append([]Link{}, w.Links...)}
 	for _, f := range w.Files {
-		nf := File{Path: f.Path}
+		nf := File{Path: f.Path, EscDollar: f.EscDollar}
 		if f.Raw != nil {
 			s := *f.Raw
 			nf.Raw = &s
@@ -164,6 +171,12 @@ type Outcome struct {
 	Crash      string         `json:"crash,omitempty"` // crash signature found on stderr
 	StepsOut   bool           `json:"step_budget_exceeded,omitempty"`
 	CPUOut     bool           `json:"cpu_limit_exceeded,omitempty"`
+	// Blocked: every thread of the process group slept and no CPU time was
+	// consumed for 10 s while nothing was left to wait for (stdin delivered
+	// and closed, stdout/stderr drained): the simulator's "no runnable task
+	// and no pending event" — a deadlock, e.g. a write into a full pipe that
+	// nobody reads. The group is killed.
+	Blocked bool `json:"blocked_forever,omitempty"`
 	Steps      int64          `json:"steps,omitempty"`
 	Sig        string         `json:"schedule_sig,omitempty"`
 	Opened     []string       `json:"opened,omitempty"`    // resolved paths of successful opens (Trace)
@@ -354,14 +367,42 @@ func Run(root string, inv *Invocation) (*Outcome, error) {
 	// wall-clock watchdog far above the CPU limit: only catches a process
 	// that sleeps forever (bkl has no sleep); reported as infrastructure
 	var werr error
-	select {
-	case werr = <-done:
-	case <-time.After(time.Duration(cpu*6+60) * time.Second):
-		_ = syscall.Kill(-cmd.Process.Pid, syscall.SIGKILL)
-		<-done
-		return nil, fmt.Errorf("procsim: wall-clock watchdog fired (cpu limit %ds) for %v", cpu, inv.Args)
+	blocked := false
+	deadline := time.After(time.Duration(cpu*6+60) * time.Second)
+	tick := time.NewTicker(2 * time.Second)
+	defer tick.Stop()
+	lastCPU, idle := int64(-1), 0
+wait:
+	for {
+		select {
+		case werr = <-done:
+			break wait
+		case <-tick.C:
+			ticks, sleeping := groupActivity(cmd.Process.Pid)
+			if sleeping && lastCPU >= 0 && ticks-lastCPU <= 2 {
+				idle++
+			} else {
+				idle = 0
+			}
+			lastCPU = ticks
+			if idle >= 5 {
+				_ = syscall.Kill(-cmd.Process.Pid, syscall.SIGKILL)
+				werr = <-done
+				blocked = true
+				break wait
+			}
+		case <-deadline:
+			_ = syscall.Kill(-cmd.Process.Pid, syscall.SIGKILL)
+			<-done
+			return nil, fmt.Errorf("procsim: wall-clock watchdog fired (cpu limit %ds) for %v", cpu, inv.Args)
+		}
 	}
 	out := &Outcome{Stdout: stdout.String(), Stderr: stderr.String(), WallMS: time.Since(t0).Milliseconds()}
+	if blocked {
+		out.Blocked = true
+		out.Status = -1
+		werr = nil
+	}
 	if werr != nil {
 		if ee, ok := werr.(*exec.ExitError); ok {
 			ws := ee.Sys().(syscall.WaitStatus)
@@ -403,6 +444,61 @@ func Run(root string, inv *Invocation) (*Outcome, error) {
 		}
 	}
 	return out, nil
+}
+
+// groupActivity returns the CPU time (clock ticks, user + system) consumed so
+// far by the live processes of a process group and whether every one of their
+// threads is sleeping (state S) — nothing runnable, nothing in disk wait.
+func groupActivity(pgid int) (int64, bool) {
+	ents, err := os.ReadDir("/proc")
+	if err != nil {
+		return 0, false
+	}
+	var ticks int64
+	sleeping, found := true, false
+	for _, e := range ents {
+		name := e.Name()
+		if name[0] < '0' || name[0] > '9' {
+			continue
+		}
+		st, ok := procStat("/proc/" + name + "/stat")
+		if !ok || len(st) < 13 {
+			continue
+		}
+		if g, _ := strconv.Atoi(st[2]); g != pgid {
+			continue
+		}
+		found = true
+		u, _ := strconv.ParseInt(st[11], 10, 64)
+		k, _ := strconv.ParseInt(st[12], 10, 64)
+		ticks += u + k
+		if st[0] == "Z" {
+			continue
+		}
+		tasks, _ := os.ReadDir("/proc/" + name + "/task")
+		for _, t := range tasks {
+			ts, ok := procStat("/proc/" + name + "/task/" + t.Name() + "/stat")
+			if ok && ts[0] != "S" {
+				sleeping = false
+			}
+		}
+	}
+	return ticks, sleeping && found
+}
+
+// procStat returns the fields of a /proc stat line after the command name
+// (index 0 = state, 2 = pgrp, 11 = utime, 12 = stime).
+func procStat(path string) ([]string, bool) {
+	b, err := os.ReadFile(path)
+	if err != nil {
+		return nil, false
+	}
+	s := string(b)
+	i := strings.LastIndexByte(s, ')')
+	if i < 0 || i+2 > len(s) {
+		return nil, false
+	}
+	return strings.Fields(s[i+2:]), true
 }
 
 type limitWriter struct {
